@@ -23,6 +23,8 @@ pub struct ParseError(pub ParseErrorEnum, pub MetaInfo);
 pub enum ParseErrorEnum {
     /// The top level definition is not a valid enum/struct/const/fn declaration.
     InvalidTopLevelDef,
+    /// A const, struct / enum or fn with the specified name is defined more than once.
+    DuplicateDefinition(String),
     /// Arrays of the specified size are not supported.
     InvalidArraySize,
     /// The min or max value of the range expression is invalid.
@@ -56,6 +58,9 @@ impl std::fmt::Display for ParseErrorEnum {
         match self {
             ParseErrorEnum::InvalidTopLevelDef => {
                 f.write_str("Not a valid top level declaration (struct/enum/const/fn)")
+            }
+            ParseErrorEnum::DuplicateDefinition(name) => {
+                f.write_fmt(format_args!("'{name}' is defined more than once"))
             }
             ParseErrorEnum::InvalidArraySize => {
                 let max = usize::MAX;
@@ -172,6 +177,10 @@ impl Parser {
                 }
                 TokenEnum::KeywordConst => {
                     if let Ok((const_name, const_def)) = self.parse_const_def(meta) {
+                        if const_defs.contains_key(&const_name) {
+                            let e = ParseErrorEnum::DuplicateDefinition(const_name.clone());
+                            self.errors.push(ParseError(e, meta));
+                        }
                         const_defs.insert(const_name, const_def);
                     } else {
                         self.consume_until_one_of(&top_level_keywords);
@@ -180,6 +189,12 @@ impl Parser {
                 }
                 TokenEnum::KeywordStruct => {
                     if let Ok((struct_name, struct_def)) = self.parse_struct_def(meta) {
+                        if struct_defs.contains_key(&struct_name)
+                            || enum_defs.contains_key(&struct_name)
+                        {
+                            let e = ParseErrorEnum::DuplicateDefinition(struct_name.clone());
+                            self.errors.push(ParseError(e, meta));
+                        }
                         struct_defs.insert(struct_name, struct_def);
                     } else {
                         self.consume_until_one_of(&top_level_keywords);
@@ -188,6 +203,11 @@ impl Parser {
                 }
                 TokenEnum::KeywordEnum => {
                     if let Ok((enum_name, enum_def)) = self.parse_enum_def(meta) {
+                        if struct_defs.contains_key(&enum_name) || enum_defs.contains_key(&enum_name)
+                        {
+                            let e = ParseErrorEnum::DuplicateDefinition(enum_name.clone());
+                            self.errors.push(ParseError(e, meta));
+                        }
                         enum_defs.insert(enum_name, enum_def);
                     } else {
                         self.consume_until_one_of(&top_level_keywords);
@@ -197,6 +217,10 @@ impl Parser {
                 TokenEnum::KeywordFn => {
                     if let Ok(fn_def) = self.parse_fn_def(is_pub.is_some(), is_pub.unwrap_or(meta))
                     {
+                        if fn_defs.contains_key(&fn_def.identifier) {
+                            let e = ParseErrorEnum::DuplicateDefinition(fn_def.identifier.clone());
+                            self.errors.push(ParseError(e, is_pub.unwrap_or(meta)));
+                        }
                         fn_defs.insert(fn_def.identifier.clone(), fn_def);
                     } else {
                         self.consume_until_one_of(&top_level_keywords);
